@@ -593,7 +593,7 @@ func TestVerif_C20_Mutants(t *testing.T) {
 			}
 		}
 		kinds := []string{"entry-byte-flip", "entry-under-other-name", "key-dropped", "proof-key-dropped", "key-duplicated", "existing-account", "existing-account/account-key-only", "existing-account/member-of-a-group-only", "heads-byte-flip", "key-byte-flip",
-			"entry-dropped", "reordered-keys-last", "reordered-heads-first", "truncated-tar", "entry-trailing-garbage"}
+			"entry-dropped", "reordered-keys-last", "reordered-heads-first", "truncated-tar", "entry-trailing-garbage", "heads-file-duplicated"}
 		// every mutation kind once per exported history
 		for _, kind := range kinds {
 			files := make([]c20File, len(src.files))
@@ -681,6 +681,12 @@ func TestVerif_C20_Mutants(t *testing.T) {
 					}
 				}
 				files = append(rest, keys...)
+			case "heads-file-duplicated":
+				if len(headIdx) == 0 {
+					continue
+				}
+				f := files[headIdx[rapid.IntRange(0, len(headIdx)-1).Draw(rt, "head-dup")]]
+				files = append(files, c20File{f.Name, append([]byte(nil), f.Data...)})
 			case "reordered-heads-first":
 				var heads, rest []c20File
 				for _, f := range files {
@@ -709,6 +715,21 @@ func TestVerif_C20_Mutants(t *testing.T) {
 			rejected := err != nil || timedOut
 			if mustReject && !rejected {
 				fail("bad-archive-accepted/"+kind, fmt.Sprintf("an archive with %s was restored without error", kind))
+			}
+			// a rejected archive leaves the node as it was: the genuine export still restores into it afterwards
+			if rejected && err != nil && withAccount == "" && mustReject && kind != "key-dropped" && kind != "proof-key-dropped" {
+				err2, timedOut2, pan2 := tgt.restore(c20Tar(src.files), 30*time.Second)
+				if pan2 != nil {
+					fail("restore-panic/after-rejected-"+kind, fmt.Sprint(pan2))
+				}
+				if err2 != nil || timedOut2 {
+					fail("rejected-archive-left-residue/"+kind, fmt.Sprintf("after an archive with %s was rejected, restoring the untouched export into the same (still empty) node fails: %v (timed out=%v)", kind, err2, timedOut2))
+				}
+				a2, b2, _ := tgt.ss.ExportAccountKeysForBackup()
+				if !bytes.Equal(a2, src.keyA) || !bytes.Equal(b2, src.keyProof) {
+					fail("rejected-archive-left-residue/"+kind, "after a rejected archive the genuine export restores to another identity")
+				}
+				acct.Label("mutant/genuine-restore-after-rejection")
 			}
 			if !rejected && kind == "reordered-keys-last" {
 				// the order of the files does not matter to any handler: this archive restores to the original
